@@ -404,7 +404,10 @@ def analyse(ck):
         src = P.norm(rt[1])
         cr = P.norm(gv.fr.closure_ret(src[4][0], [], site_hint=src[1])) if src[4] and isinstance(src[4][0], tuple) and src[4][0][0] == "closure" else None
         ns = [s_ for s_ in T.walk(cr) if (P.call_name(s_) or "").endswith("generate_random_nullifier_preimage")] if cr is not None else []
-        okg = P.norm(rt[2]) == want_end and len(ns) == 1
+        # … and the call sits in the closure's own body (run once per element), not in a value the closure merely captured
+        cbody = prog.bodies.get(src[4][0][1]) if cr is not None else None
+        in_body = cbody is not None and any(t_.get("name") == "generate_random_nullifier_preimage" for _, t_ in cbody.calls())
+        okg = P.norm(rt[2]) == want_end and len(ns) == 1 and in_body
     else:
         okg = isinstance(rt, tuple) and rt and rt[0] == "map" and circ.range_expr(rt[1]) is not None and P.const_of(circ.range_expr(rt[1])[0]) == 0 and P.norm(circ.range_expr(rt[1])[1]) == want_end
         inner = [e for e in gv.effects if e.raw.get("name") == "generate_random_nullifier_preimage"]
